@@ -12,7 +12,7 @@ import H3.Model.E2E
     (method, URI parts, header list, body pieces as the `sd` ops give them, trailers), `wire m` is
     computed with the send models, cut into chunks, and `deliver` — the `FrameStream` model under
     the request-receive model under QPACK decoding and `Header::try_from` — is run over it.  By
-    `C01_recv_of_wire_partial` the chunking chosen here is irrelevant; by
+    `C01_recv_of_wire` the chunking chosen here is irrelevant; by
     `C01_interleaving_irrelevant_partial` so are the relay ops, credit grants and task order of the
     line.  The `http` parameter is instantiated by the identity instance `echo` (every value parses
     to itself, a built URI has its parts): that the real crate behaves like this on the scenario's
@@ -43,8 +43,10 @@ def insertSorted (p : String × String) : List (String × String) → List (Stri
   | [] => [p]
   | q :: r => if p.1 < q.1 then p :: q :: r else q :: insertSorted p r
 
+/-- stable sort by name (`insertSorted` one by one, done by merging: sections may have tens of
+    thousands of fields) -/
 def sortHdrs (hs : List (String × String)) : List (String × String) :=
-  hs.foldl (fun acc p => insertSorted p acc) []
+  hs.mergeSort (fun a b => !(b.1 < a.1))
 
 def renderHdrs (hs : List (String × String)) : String :=
   if hs.isEmpty then "-" else ";".intercalate ((sortHdrs hs).map (fun p => p.1 ++ "=" ++ p.2))
@@ -198,21 +200,10 @@ def renderDelivered (pre task : String) (headCmd : String) (d : Delivered) : Str
 /-- the receiver's `max_field_section_size`: the scenarios configure none, so the default -/
 def limit : Nat := H3.Qpack.peerLimit none
 
-/-- D-01: a section of more than 24576 fields is refused by the receiver's `Header::try_from`
-    (`C01_field_count_refused`): the request is answered with a stream error H3_MESSAGE_ERROR and
-    the request task ends.  The branch is tagged; the specification half still demands delivery. -/
-def overCount (m : Message) : Bool :=
-  match headerOf m with
-  | .ok h => decide (24576 < h.wireFields.length)
-  | _ => false
-
 def modelLine (role : H3.ReqRecv.Role) (pre headCmd : String) (sid : Nat) (msg : Option Message) : String :=
   match msg with
   | none => s!"{pre}.q{sid}.{headCmd}=model-bad-message"
   | some m =>
-    if overCount m && role == .server then
-      s!"{pre}.q{sid}.{headCmd}=err:stream:H3_MESSAGE_ERROR #D-01 {pre}.q{sid}.rm=no-task"
-    else
     let w := wire m
     renderDelivered pre s!"q{sid}" headCmd (deliver echo role limit (chunked (chunkSize w.length) w))
 
